@@ -126,6 +126,8 @@ func Main(args []string) int {
 		return cmdReplay(args[1:])
 	case "context":
 		return cmdContext(args[1:])
+	case "exec-one":
+		return cmdExecOne(args[1:])
 	}
 	fmt.Fprintf(os.Stderr, "unknown sub-command %q\n", args[0])
 	return 2
@@ -198,6 +200,11 @@ func cmdWorker(args []string) int {
 		if i < len(plans) {
 			prefix = plans[i]
 			sum.PlannedRuns++
+		}
+		// which run is executing: the orchestrator reads this when the process dies of a fatal
+		// runtime error (stack overflow, concurrent map access) that no recover can stop
+		if *out != "" {
+			os.WriteFile(*out+".cur", []byte(strconv.Itoa(i)), 0o644)
 		}
 		// A run that does not come back is harness trouble (exit 2), never a verdict.
 		idx := i
@@ -382,6 +389,35 @@ func warmup(c *Check, tier string, batchSeed uint64, indices []int, kf []KnownFi
 		}
 		ExecSeeded(c, tier, i, batchSeed, prefix, kf)
 	}
+}
+
+// cmdExecOne executes one run of a batch (after optional warm-up runs) and reports how it ended.
+// The orchestrator uses it to confirm that a run kills the process: then this command dies too.
+func cmdExecOne(args []string) int {
+	fs := flag.NewFlagSet("exec-one", flag.ExitOnError)
+	id := fs.String("prop", "", "property id")
+	tier := fs.String("tier", "quick", "tier")
+	batch := fs.Uint64("seed", 1, "batch seed")
+	index := fs.Int("index", 0, "run index")
+	known := fs.String("known", "", "known findings file")
+	warm := fs.String("warmup", "", "comma-separated run indices to execute first")
+	fs.Parse(args)
+	c := mustCheck(*id)
+	kf := LoadKnown(*known)
+	var idx []int
+	for _, f := range strings.Split(*warm, ",") {
+		if n, err := strconv.Atoi(f); err == nil {
+			idx = append(idx, n)
+		}
+	}
+	warmup(c, *tier, *batch, idx, kf)
+	var prefix Trace
+	if plans := plansOf(c, *tier); *index < len(plans) {
+		prefix = plans[*index]
+	}
+	r := ExecSeeded(c, *tier, *index, *batch, prefix, kf)
+	fmt.Printf("exec-one: run %d ended (violation=%v harness=%q)\n", *index, r.Viol != nil, r.HarnessErr)
+	return 0
 }
 
 // cmdContext confirms a recorded violation after a warm-up of earlier runs of its batch and writes
